@@ -232,6 +232,7 @@ def run(ctx):
     import bionumpy as bnp
     from bionumpy.io import strops
     from npstructures import RaggedArray
+    from bnpmon.ctx import originates_in_library
     mon = Monitors(ctx)
     mon.install()
     rng = ctx.rng
@@ -375,6 +376,24 @@ def run(ctx):
         txt = strops.int_lists_to_strings(ra)     # judged by postcondition
         ctx.count("driver_calls:int_lists_to_strings")
         exp = [",".join(str(v) for v in r) for r in lists]
+        # the same for row selections handed over as they come out of the indexing step (lazy views, nothing flattened them yet)
+        n = len(lists)
+        perm = list(range(n)); rng.shuffle(perm)
+        mask = [rng.random() < 0.6 for _ in range(n)]
+        for kind, idx, mk in (("reversed", list(range(n))[::-1], lambda: ra[::-1]), ("permuted", perm, lambda: ra[np.array(perm)]), ("masked", [i for i in range(n) if mask[i]], lambda: ra[np.array(mask)]),
+                              ("tail", list(range(n))[n // 2:], lambda: ra[n // 2:])):
+            if not idx:
+                continue
+            try:
+                got = strops.int_lists_to_strings(mk()).tolist()
+            except Exception as e:
+                if not originates_in_library(e):
+                    raise
+                ctx.violation("int_lists_to_strings/raised-on-row-selection:%s" % type(e).__name__, "int_lists_to_strings(%s selection) raised %s" % (kind, str(e)[:80]), {"lists": lists[:10], "selection": kind})
+                continue
+            want = [exp[i] for i in idx]
+            ctx.check("int_lists_to_strings:selection", got == want, "int_lists_to_strings/wrong-text:row-selection", "int_lists_to_strings of a %s selection gave %r expected %r" % (kind, got[:5], want[:5]),
+                      {"lists": lists[:10], "selection": kind, "got": got[:10], "expected": want[:10]}, (kind, repr(lists)) if sum(map(len, lists)) > 1 else None)
         flat = ",".join(exp)
         if all(len(r) > 0 for r in lists):
             parts = strops.split(bnp.as_encoded_array(flat), sep=",").tolist()
